@@ -857,6 +857,8 @@ class Engine(object):
                 env2[nm] = self.snapshot(ex.spec_eval(expr, env2))
             for path, t in (contract.get("havoc") or {}).items():
                 self.havoc_path(ex, env2, path, t)
+            res = self.fresh_of_type(ex, contract.get("returns", "None"), "ret_" + fq.rsplit(".", 1)[-1], env)
+            env2["result"] = res
             for (nm, e) in self.norm_named(contract.get("ensures"), "post"):
                 if nm in keep:      # the state clauses of the callee the caller's argument needs (assuming less is sound)
                     ex.ctx.assume_mode = True
@@ -864,7 +866,7 @@ class Engine(object):
                         ex.ctx.assume(ex.spec_bool(e, env2))
                     finally:
                         ex.ctx.assume_mode = False
-            return self.fresh_of_type(ex, contract.get("returns", "None"), "ret_" + fq.rsplit(".", 1)[-1], env)
+            return res
         cases = contract.get("cases")
         if cases:
             for nm, expr in (contract.get("old") or {}).items():
